@@ -63,6 +63,8 @@ TRUSTED_EXTRA = [
     "harness/cwloop.py + lean/CnvVerif/Model/SmoothIterPrimExt5b.lean: the reading of the fixed-count loop over whole-array "
     "statements (np.convolve(.., mode='same'), element-wise * and /) in which smoothing.convolve_weighted is written "
     "(Generated/ExprsCwIter.lean; rules at the top of harness/cwloop.py)",
+    "harness/wmadcall.py: the reading of descriptives.weighted_mad as two calls of the generated src_weighted_median, each with "
+    "the permutation of its own argsort as a parameter (Generated/ExprsWmad.lean)",
 ]
 
 PREFIX = os.environ.get("VERIF_C19_MODEL", "") == "prefix"   # model of the unrepaired functions
